@@ -530,7 +530,9 @@ theorem inv2_helperStep (c : Committee) (s : Node) (d : Digest) (o : Nat) (h : I
   · split
     · exact inv2_emit_plain _ _ rfl h
     · exact h
-    · exact h
+    · split
+      · exact h
+      · exact inv2_fail _ _ h
 
 theorem inv2_step (c : Committee) (s : Node) (e : Event) (h1 : Inv1 s) (h : Inv2 s) :
     Inv2 (step c s e) := by
